@@ -94,6 +94,14 @@ CHECKS.update({
    design="6 C20"),
 })
 
+CHECKS.update({
+ "C16": dict(
+   text="Lean theorems over the model of the process-wide construction state (six stacks of ctor.py / expr_mode.py, leftover overrides, leftover solver variables) and of every push/pop site with its control-flow shape: any constraint body or with-body - any nesting of scoped statements, any number of expression statements, a raise at any position - leaves every stack as it found it (exec_balanced, structural induction over bodies); constructing an object with the user's __init__ or any constraint body raising anywhere leaves the state idle (construct_idle); do_randomize leaves no override and no solver variable after a normal return, a raising pre/post_randomize, SolveFailure or an exception inside the solve (doRandomize_idle); randomize_with with a body raising anywhere likewise (randomizeWith_idle); hence after any history of such calls with any fault positions the shared state equals that of a fresh session (history_idle, induction over the history). Tied by exhaustive fault enumeration on generated histories: every fault position is run on the real library, after every op the six stacks, the overrides in the model tree and the fields' solver variables are read and compared with the model, and the rest of the history is compared op by op (outcome, lowered hard formulas, values under identical explicit seeds) with a twin history in which the failing op never happened.",
+   note=TB + "Holds on the tree after repair 2c22c50 (F06, F26); the check reports 5 distinct violations when that commit is reverted. Not fault-injected in this revision: covergroup construction, free-standing vsc.randomize_with, foreach/dist rewrites (the override count is 0 in every generated run).",
+   technique="Lean 4 proof (structural induction over bodies, induction over histories) + exhaustive fault-position enumeration with twin-history comparison",
+   design="6 C16"),
+})
+
 def main():
     checks = []
     for pid in ALL:
